@@ -1,5 +1,6 @@
 """C08 - HTLC deadlines: constants, the shape of every deadline guard, and the relations between sites."""
 from engine import *
+import provenance
 
 MONP = 'lightning::chain::channelmonitor::'
 CMP = 'lightning::ln::channelmanager::'
@@ -264,4 +265,5 @@ RULES = [
 	('08.e', 'S6/S7 monitor force-close conditions and holding-cell expiry', r08e),
 	('08.f', 'S8 anti-reorg confirmation threshold', r08f),
 	('08.g', 'cross-site relations between the extracted bounds', r08g),
+	('08.z', 'named protocol / policy constants in this property\'s files have their reviewed values (rules/provenance.py)', lambda F: provenance.consts_for_property(F, 'C08', '08.z')),
 ]
